@@ -1191,3 +1191,38 @@ func c05d(c *Ctx, r *Report) {
 			"the template's NeedPacked flag is not `lalr.NeedPacked && utils.PackFlags`: the packed reader could be emitted without packed arrays")
 	}
 }
+
+// c05Staged: the generated Action reader of every packed skeleton is a sibling of the two in-repo readers.
+func c05Staged(c *Ctx, r *Report) {
+	const clause = "C05.b"
+	st := c.GetStaged()
+	n := 0
+	for _, sc := range st.Configs {
+		if !sc.V.Packed || sc.V.Http {
+			continue
+		}
+		for _, sk := range sc.Skels {
+			if sk.K != 2 || sk.ActSet != 0 {
+				continue
+			}
+			n++
+			rt, err := analysePackedAction(sk)
+			if err != "" {
+				r.Undecided(clause, "R4 SIBLING-READERS", "skeleton "+sk.V.Name+"/(*StateSym).Action", sk.pos(token.NoPos), err)
+				continue
+			}
+			checkReader(r, clause, rt, "full")
+		}
+		// NTERMINALS hole provenance: the same expression the writer uses
+		for fv, p := range sc.Eval.fieldsP {
+			if fv.Name() == "NTerminals" {
+				r.Check(strings.HasPrefix(p, "len(") && strings.HasSuffix(p, ".G.VtSet)"), clause, "R1 PROVENANCE", "Builder.(*TemplateBuilder).NTerminals/"+sc.V.Name, c.pos(sc.Eval.fieldPos[fv]),
+					"NTERMINALS is emitted from len(G.VtSet), the expression the writer's column layout uses",
+					"NTERMINALS is emitted from "+p+", the writer lays columns out with len(G.VtSet)")
+			}
+		}
+	}
+	if n < 2 {
+		r.Undecided(clause, "R4 SIBLING-READERS", "packed skeletons", "-", fmt.Sprintf("only %d of 2 packed skeletons could be staged: %v", n, st.Errs))
+	}
+}
